@@ -326,6 +326,12 @@ func (s *fileLoopCursor) ReadAggDataNormal() (*record.Record, *comm.FileInfo, er
 			s.index++
 			continue
 		}
+		if re.record.RowNums() == 0 {
+			// A piece of a series in which no row has a value for the queried fields: there is nothing to aggregate.
+			// Handing the empty record on makes aggregateCursor.inNextWindowWithInfo report the pending time window
+			// as continued by whatever record comes next, which may belong to another series or file.
+			continue
+		}
 		rec := s.recPool.Get()
 		if s.isCutSchema {
 			rec.AppendRecForSeries(re.record, 0, re.record.RowNums(), s.ridIdx)
